@@ -313,9 +313,11 @@ class Seam(object):
         fs = self.fs
         f = fs.sys_open(path, mode)
         raw = SimRawFile(fs, f, mode)
+        # same newline handling as the built-in open(): 4th positional argument or keyword
+        newline = kw.get('newline', args[3] if len(args) > 3 else None)
         if 'r' in mode:
-            return io.TextIOWrapper(io.BufferedReader(raw, fs.bufsize), encoding='utf-8')
-        return io.TextIOWrapper(io.BufferedWriter(raw, fs.bufsize), encoding='utf-8')
+            return io.TextIOWrapper(io.BufferedReader(raw, fs.bufsize), encoding='utf-8', newline=newline)
+        return io.TextIOWrapper(io.BufferedWriter(raw, fs.bufsize), encoding='utf-8', newline=newline)
 
 
 class _Stat(object):
